@@ -11,9 +11,9 @@ base=$(cargo test --workspace --no-fail-fast --offline 2>&1 | grep -E "^test res
 echo "baseline with change: $base"
 cp demo/demo_test.rs tests/zz_demo.rs
 with=$(cargo test --offline --test zz_demo 2>&1 | grep -E "^test result" | head -1)
-git stash -q -- src
+git apply -R /tmp/mut/$id.patch        # (git stash is shared between worktrees: never use it here)
 without=$(cargo test --offline --test zz_demo 2>&1 | grep -E "^test result" | head -1)
-git stash pop -q
+git apply /tmp/mut/$id.patch
 rm -f tests/zz_demo.rs
 echo "demo with change:    $with"
 echo "demo without change: $without"
